@@ -16,6 +16,12 @@
                authorisation_service.rs process_message (validate, forward to the writer in
                validation order), sqlite_database.rs BufferedDatabaseWriter (writes in arrival order)
 
+   Events: R i = the read closure of mutation i runs on a reader connection; V i = the actor
+   validates and signs it and forwards it to the writer; W i = its write becomes visible, i.e. the
+   batch transaction that contains it commits (the acknowledgement is sent after that).  A read
+   that runs while a batch is still open sees none of that batch: it is a read BEFORE those W.
+   Validation reads no table, so only its order (= the order of the writes) matters.
+
    Identifiers are scenario indices.  A row keeps its rowid for its whole life (no deletion in
    these scenarios), so "UPDATE .. WHERE rowid = snapshot's rowid" is "replace the row with that id". *)
 From DV Require Export Base.
